@@ -26,13 +26,8 @@ let parse_split out =
   | [ok; fs] -> Some (unhexs fs, ok = "1")
   | _ -> None
 
-let spec prop inp out =
-  match prop, words inp with
-  | "C16", ["S"; s] ->
-    let (fs, ok) = M.ref_split (unhex s) in
-    if out = b01 ok ^ " " ^ hexs fs then None
-    else Some ("reference tokenizer gives " ^ b01 ok ^ " " ^ hexs fs)
-  | "C16", ("N" :: _ :: s :: rest) ->
+(* wording of a session failure (not the decision, which is M.session_ok) *)
+let explain_session s rest out =
     (* tokens returned by successive Next calls (before any Rest) must be the reference fields,
        then false forever; Rest must return a suffix of the input *)
     let (fs, okc) = M.ref_split (unhex s) in
@@ -43,6 +38,7 @@ let spec prop inp out =
       | [] -> None
       | o :: outs' ->
         if i >= String.length ops then Some "more outputs than ops" else
+        if o = "PANIC" then Some "the scanner panicked" else
         if ops.[i] = 'r' then begin
           let r = String.sub o 1 (String.length o - 1) in
           let full = (match s with "-" -> "" | x -> x) and r' = (match r with "-" -> "" | x -> x) in
@@ -67,6 +63,30 @@ let spec prop inp out =
           | _ -> Some "bad output syntax"
         end in
     go 0 fs outs false false
+
+let spec prop inp out =
+  match prop, words inp with
+  | "C16", ["S"; s] ->
+    let (fs, ok) = M.ref_split (unhex s) in
+    if out = b01 ok ^ " " ^ hexs fs then None
+    else Some ("reference tokenizer gives " ^ b01 ok ^ " " ^ hexs fs)
+  | "C16", ("N" :: _ :: s :: rest) ->
+    (* the property on the implementation's observations: the extracted reference session checker
+       (ShellSession.session_ok, the function of theorem C16_session); the hand-written walk explain_session above
+       only words the reason *)
+    let opstr = match rest with [o] -> o | _ -> "" in
+    let ops = List.init (String.length opstr) (fun i -> if opstr.[i] = 'r' then M.ORest else M.ONext) in
+    let parse o =
+      if o = "PANIC" then M.RPanic
+      else if o.[0] = 'r' then M.RRest (unhex (String.sub o 1 (String.length o - 1)))
+      else match String.split_on_char ':' (String.sub o 1 (String.length o - 1)) with
+        | [ok; t; c] -> M.RNext (ok = "1", unhex t, c = "1")
+        | _ -> M.RPanic in
+    let outs = if out = "" then [] else List.map parse (String.split_on_char ';' out) in
+    if M.session_ok (unhex s) ops outs then None
+    else Some (match explain_session s rest out with
+               | Some r -> r
+               | None -> "observations rejected by the reference session checker (Text/Complete changed after the end, or Rest is not exactly the unconsumed input)")
   | "C15", ["R"; ss] ->
     if out = "1 " ^ hexs (unhexs ss) then None else Some "Split(Join(ss)) differs from (ss, true)"
   | "C15", ["Q"; s] ->
